@@ -59,6 +59,31 @@ def call(e, fn):
     except Exception as ex: e['raised'] = type(ex).__name__
     return e
 
+def long_mode_events(mo, M, segblocks=64):
+    """ONE real enc call on a long message, recorded as segments of whole blocks that TLC judges independently (and in parallel):
+    ECB - inner segments are the unpadded mode on whole blocks, the last one carries the padding scheme; CBC - the same, each segment chained
+    from the RECORDED previous ciphertext block (by induction over the segments the whole chain is the specified one); CTR - op enc_at with
+    the block offset.  The last segment takes everything that is left of the result."""
+    bl = mo['sch']['B']; seg = segblocks * bl
+    try: r = make_mode(mo).enc(M)
+    except Exception as ex: return [dict(op='enc', mo=mo, m=B(M[:seg]), raised=type(ex).__name__, obs=[], long=len(M))]
+    if type(r) is not bytes: return [dict(op='enc', mo=mo, m=B(M[:seg]), raised='', obs=[-1], long=len(M))]
+    out = []; inner = dict(mo, sch=dict(mo['sch'], s='none'))
+    starts = list(range(0, len(M), seg)) or [0]
+    for a in starts:
+        last = a == starts[-1]
+        m = M[a:] if last else M[a:a + seg]
+        if mo['mode'] == 'ctr':
+            out.append(dict(op='enc_at', mo=mo, c=a // bl, m=B(m), raised='', obs=B(r[a:] if last else r[a:a + seg]), long=len(M)))
+        elif mo['mode'] == 'ecb':
+            out.append(dict(op='enc', mo=mo if last else inner, m=B(m), raised='', obs=B(r[a:] if last else r[a:a + seg]), long=len(M)))
+        else:                                                                          # cbc: result = IV + chained blocks
+            prev = r[a:a + bl]                                                         # the IV for the first segment, else the ciphertext block before this segment
+            mo2 = dict(mo if last else inner, iv=B(prev))
+            out.append(dict(op='enc', mo=mo2, m=B(m), raised='', obs=B(prev + (r[bl + a:] if last else r[bl + a:bl + a + seg])), long=len(M)))
+    if out and mo['mode'] == 'cbc' and out[0]['mo']['iv'] != mo['iv']: out[0]['mo'] = dict(out[0]['mo'], iv=mo['iv'])     # the first segment is held to the configured IV
+    return out
+
 def events_for(mo, M):
     """fresh objects for every call: enc on A, dec on an equally configured B"""
     ev = []
@@ -190,6 +215,24 @@ def run(ctx):
             if bl > 16 and not big: objs = objs[:2] + objs[4:]
             for mo in objs: ev += events_for(mo, M); ctx.mark((mo['mode'], c, kl, n, mo['sch']['s'], str(mo['count0'])))
     validate(ctx, ev, 'real ciphers', per=6)
+    # (iii) one call on a long message (the counter's low byte wraps after 256 blocks), judged in segments
+    ev = []
+    toy4 = dict(c='toy', bl=4, keys=[list(KEY)], tweak=[]); toy16 = dict(c='toy', bl=16, keys=[list(KEY)], tweak=[])
+    rbn = lambda n: bytes(rnd.randrange(256) for _ in range(n))
+    for ci, bl, sizes in ((toy4, 4, (4 * 300 + 1, 8192)), (toy16, 16, (65536 + 3, 16 * 257) + ((1 << 18,) if big else ()))):
+        for n in sizes:
+            iv = rbn(bl); h = bl // 2
+            for mo in (mo_rec('ecb', ci, bl, 'pkcs7'), mo_rec('cbc', ci, bl, 'iso', iv), mo_rec('cbc', ci, bl, 'pkcs7', iv), mo_rec('ecb', ci, bl, 'zero'),
+                       mo_rec('ctr', ci, bl, 'none', b'', iv[:h], b'\xff' * (h - 1) + b'\x01'), mo_rec('ctr', ci, bl, 'none', b'', iv[:h], bytes(h))):
+                M = rbn(n); ev += long_mode_events(mo, M); ctx.mark(('long', mo['mode'], 'toy', bl, n))
+                if mo['sch']['s'] != 'zero':
+                    ev.append(call(dict(op='rt', mo=mo, m=B(M[:n % 1000 + 2 * bl]), long=n), lambda: make_mode(mo).dec(make_mode(mo).enc(M))[:n % 1000 + 2 * bl] + b''))   # round trip of the long message, compared on a prefix
+    for c, kl, n in (('aes', 16, 4096 + 5), ('des', 8, 2048 + 8), ('aes', 32, 16 * 256)) + ((('serpent', 16, 4096 + 16), ('tdea', 24, 4096)) if big else ()):
+        bl = 8 if c in ('des', 'tdea') else 16; h = bl // 2
+        ci = R.ci(c, [rbn(kl)], b''); iv = rbn(bl)
+        for mo in (mo_rec('cbc', ci, bl, 'pkcs7', iv), mo_rec('ctr', ci, bl, 'none', b'', iv[:h], b'\xff' * (h - 1) + b'\xf0'), mo_rec('ecb', ci, bl, 'x923')):
+            ev += long_mode_events(mo, rbn(n), segblocks=16); ctx.mark(('long', mo['mode'], c, kl, n))
+    validate(ctx, ev, 'long messages in segments', per=2)
     mo = mo_rec('cbc', dict(c='toy', bl=2, keys=[list(KEY)], tweak=[]), 2, 'pkcs7', b'\x01\x02')
     clean = dict(ev=events_for(mo, b'abc')[:1])
     def corrupt(t): t['ev'][0]['obs'][-1] ^= 1; return t
